@@ -35,6 +35,7 @@ import TxdbusModel.Proofs.Auth.ClientCompleteBytes
 import TxdbusModel.Auth.ClientOrig
 import TxdbusModel.Proofs.Auth.Handshake2Inv
 import TxdbusModel.Proofs.Auth.Handshake2Keyring
+import TxdbusModel.Proofs.Auth.Handshake2Wire
 
 namespace Txdbus.AuthClient
 
@@ -445,6 +446,25 @@ theorem own_bus_no_early_binary (cfg : Cfg) (hyp : Hyp cfg) (ms : List Move) :
 theorem own_bus_reachable_safe (cfg : Cfg) (hyp : Hyp cfg) (st : State) (h : Reach cfg st) : Safe cfg st :=
   inv_safe (reach_inv hyp h)
 
+/-- C07's SAFETY THEOREM COMPOSED WITH THE BUS, without `Hyp`: for every configuration whose bus GUID holds no CR -
+nothing is assumed about line lengths, user names, keyrings, hashes - and every schedule: (1) every BEGIN of the
+client is justified in the sense of `begin_only_after_ok` (a received `OK <hex guid>`; on a UNIX transport then
+NEGOTIATE_UNIX_FD and its answer), the client is authenticated iff it wrote BEGIN iff `connectionAuthenticated()`
+ran - because every read of the composition is a `dataReceived` of the client model (C07's invariant `InvB`);
+(2) every line the client's authenticator was ever handed is a line the bus wrote (`Wire`: the lines handed over are
+a prefix of the bus's `sent`); hence (3) a BEGIN is preceded by an OK line that THE BUS wrote. -/
+theorem own_bus_begin_only_after_bus_ok (cfg : Cfg) (hg : AuthServer.NoCR cfg.guid) (ms : List Move) :
+    let st := run cfg (init cfg) ms
+    AuthClient.BeginsJustified cfg.unix st.c.trace ∧
+    (st.c.authenticated = true ↔ AuthClient.Ev.send lBEGIN ∈ st.c.trace) ∧
+    (st.c.authenticated = true ↔ AuthClient.Ev.authenticated ∈ st.c.trace) ∧
+    (∀ l, AuthClient.Ev.recv l ∈ st.c.trace → l ∈ st.s.sent) ∧
+    (AuthClient.Ev.send lBEGIN ∈ st.c.trace → ∃ okl ∈ st.s.sent, AuthClient.OkLine okl) := by
+  intro st
+  have hb : AuthClient.InvB cfg.unix st.c.core := invB_run ms (invB_init cfg)
+  have hw : Wire cfg st := wire_run hg ms (wire_init cfg)
+  exact ⟨hb.begins, hb.authIff, hb.authEv, fun l hl => recv_was_sent hw l hl, fun h => begin_needs_bus_ok hw hb h⟩
+
 /-- Which mechanism: by cases on the environment. -/
 theorem own_bus_mechanism (cfg : Cfg) :
     (credsOk cfg = true → mechAt (expectedMech cfg) = b!"EXTERNAL") ∧
@@ -503,6 +523,11 @@ theorem hyp (unix : Bool) (creds : Option Int) (dirs : List (Bytes × AuthServer
                        by show (b!"e").length + 6 ≤ 16384; decide⟩
   sha := sha_length
   challenge := hfit
+
+/-- the hypothesis of `own_bus_begin_only_after_bus_ok` holds for this GUID -/
+example (unix : Bool) (creds : Option Int) (dirs : List (Bytes × AuthServer.DirState)) :
+    AuthServer.NoCR (cfg unix creds dirs).guid := by
+  show AuthServer.NoCR (b!"0102"); unfold AuthServer.NoCR; decide
 
 /-- credentials of uid 0 (which has a passwd entry): EXTERNAL -/
 example : expectedMech (cfg true (some 0) []) = 0 := by decide +kernel
@@ -574,6 +599,7 @@ end Txdbus.Handshake2
 #print axioms Txdbus.Handshake2.own_bus_handshake_progress
 #print axioms Txdbus.Handshake2.own_bus_no_early_binary
 #print axioms Txdbus.Handshake2.own_bus_reachable_safe
+#print axioms Txdbus.Handshake2.own_bus_begin_only_after_bus_ok
 #print axioms Txdbus.Handshake2.own_bus_mechanism
 #print axioms Txdbus.Handshake2.own_bus_cookie_when_shared_keyring
 #print axioms Txdbus.Handshake2.own_bus_cookie_requires
